@@ -597,13 +597,13 @@ fn c03_win_case(ctx: &mut Ctx, rng: &mut Rng, _i: u64) {
 }
 
 pub fn run_c03(ctx: &mut Ctx) {
-    let n = ctx.n(1600, 10_000);
+    let n = ctx.n(1600, 40_000);
     ctx.family("chains", n, c03_case);
-    let nw = ctx.n(240, 3000);
+    let nw = ctx.n(240, 10_000);
     ctx.family("windows-variant", nw, c03_win_case);
 }
 
 pub fn run_c04(ctx: &mut Ctx) {
-    let n = ctx.n(1200, 8_000);
+    let n = ctx.n(1200, 30_000);
     ctx.family("chains", n, c04_case);
 }
